@@ -841,8 +841,11 @@ def run_session_pair(ctx, rng, work, cid0, layout, inputs, outputs, descs):
     sessions = []
     for j in range(2):
         c = gen_case(rng, cid0 + j)
-        while not any(c["to"] < sp[0] < c["ns"] - (c["L"] - c["to"]) for sp in c["spikes"]):
-            c = gen_case(rng, cid0 + j)          # at least one valid spike (the empty table is F-C13-b)
+        # at least one valid spike (the empty table is F-C13-b); the two recordings differ in channel count,
+        # hence in size and in every value, so data taken from the other session's file cannot go unnoticed
+        while not any(c["to"] < sp[0] < c["ns"] - (c["L"] - c["to"]) for sp in c["spikes"]) or \
+                (sessions and c["nc"] == sessions[0]["case"]["nc"]):
+            c = gen_case(rng, cid0 + j)
         size = max(c["to"], 1, c["ns"] // 3)
         c["sizes"] = [size]
         sessions.append({"case": c, "size": size, "n_jobs": layout["n_jobs"], "out": layout["out"], "bin": layout["bin"][j]})
@@ -855,10 +858,7 @@ def run_session_pair(ctx, rng, work, cid0, layout, inputs, outputs, descs):
         return 0
     for k, r in enumerate(res):
         d = dict(desc["sessions"][k], session_pair=layout, session=k)
-        # F-C13-c: a relative bin_file is re-opened by re-used worker processes whose cwd is still the
-        # previous session's folder (second and later sessions, n_jobs > 1)
-        cls = "relative_bin_reused_workers" if (k >= 1 and layout["n_jobs"] > 1 and
-                                                 layout["bin"][k].startswith("relative")) else "other"
+        cls = "other"      # (F-C13-c, relative bin_file re-opened by re-used workers, was repaired in /repo c2a40b2)
         if r["error"]:
             ctx.fail("session %d of a pair (cwd changed in between, %s output_dir, %s bin_file, n_jobs %d): "
                      "extract_wfs_cbin raised %s" % (k, layout["out"], layout["bin"][k], layout["n_jobs"], r["error"]),
@@ -958,7 +958,7 @@ def run(ctx):
         # two sessions in turn, from inside their folders (child process; the harness cwd is untouched)
         layouts = [{"out": "relative", "bin": ["absolute", "absolute_str"], "n_jobs": 2},
                    {"out": "relative", "bin": ["relative", "relative_str"], "n_jobs": 1},
-                   {"out": "absolute", "bin": ["relative_str", "relative"], "n_jobs": 3}]     # F-C13-c region
+                   {"out": "absolute", "bin": ["relative_str", "relative"], "n_jobs": 3}]     # fixed: F-C13-c
         if ctx.thorough():
             layouts += [{"out": "relative", "bin": ["absolute_str", "absolute"], "n_jobs": 4},
                         {"out": "relative", "bin": ["relative", "relative"], "n_jobs": 2}]
